@@ -70,7 +70,16 @@ def evaluate(root, prop, v, props, tier):
     finally:
         sh(["git", "-C", "/repo", "worktree", "remove", "--force", wt])
         shutil.rmtree(os.path.join(out, ".work"), ignore_errors=True)
-    json.dump(res, open(os.path.join(d, "result_%s.json" % v), "w"), indent=1)
+    rp = os.path.join(d, "result_%s.json" % v)
+    if os.path.exists(rp) and os.environ.get("MUT_MERGE"):
+        # merge into an earlier result: newer verdicts replace older ones per property
+        old = json.load(open(rp))
+        checks = old.get("checks", {})
+        checks.update(res["checks"])
+        res["checks"] = checks
+        res["caught_by"] = sorted(p for p, r in checks.items() if r["violation"])
+        res["inconclusive"] = sorted(p for p, r in checks.items() if r["rc"] == 2)
+    json.dump(res, open(rp, "w"), indent=1)
     return res
 
 
